@@ -477,21 +477,25 @@ def build_job_c(job, kern, canary=False):
         raise Infra('target %s not translatable: %s' % (fi['demangled'][:200], fi['reason']))
     m = re.search(job.target, fi['demangled'])
     contract = job.contract(m, fi, tr) if callable(job.contract) else job.contract
-    repl = {}
+    # candidate callees to replace: every function matching a replace pattern; contracts are generated only for
+    # those that are actually in the target's call closure
+    cand = {}
     for pat, c in job.replace:
-        hits = kern.find_all(pat)
-        for h in hits:
-            if h == tgt:
-                continue
+        for h in kern.find_all(pat):
+            if h != tgt and h not in cand:
+                cand[h] = (pat, c)
+    clo = closure(tr, tgt, set(cand))
+    repl = {}
+    for h in clo:
+        if h in cand and h != tgt:
+            pat, c = cand[h]
             hi = tr.funcs[h]
             mm = re.search(pat, hi['demangled'])
             cc = c(mm, hi, tr) if callable(c) else c
-            if cc is None:
-                continue
-            repl[h] = cc
-    clo = closure(tr, tgt, set(repl))
-    # only replaced functions actually reachable
-    repl = {h: c for h, c in repl.items() if h in clo}
+            if cc is not None:
+                repl[h] = cc
+    if len(repl) != len([h for h in clo if h in cand and h != tgt]):
+        clo = closure(tr, tgt, set(repl))
     inlined = []
     bodies = []
     protos_extra = []
@@ -525,6 +529,7 @@ def build_job_c(job, kern, canary=False):
         hdecl, hbody = job.harness(fi, tr)
     else:
         hdecl, hbody = auto_harness(job, fi, tr)
+    defs += arg_macros(job, fi, tr)
     parts = [tr.head, hdecl, defs, SIGNAL_PRELUDE, job.extra_c, '\n'.join(stubs), tr.globals_text,
              '\n'.join(protos_extra), '\n'.join(bodies), hbody]
     return '\n'.join(parts), fi, contract, repl, inlined
@@ -574,6 +579,35 @@ def input_params(job, fi):
     f = fi
     idx = list(range(fi['nparams']))
     return idx, skip_this
+
+
+def arg_macros(job, fi, tr):
+    """VP_ARG<i>: mathematical value of the i-th shim argument over the harness inputs, in a 140-bit signed vector
+    (used by known-finding regions, which are written against the native shim's arguments)"""
+    if not job.shim_types or job.harness is not None:
+        return ''
+    from . import cxxtypes as CT
+    idx, skip_this = input_params(job, fi)
+    exprs = []
+    for k in idx:
+        if skip_this and k == 0:
+            continue
+        t = tr.mod.resolve(fi['param_t'][k])
+        if t.k == 'ptr':
+            path, leaf = scalar_path(tr, t.a)
+        else:
+            path, leaf = '', t
+        if leaf.k != 'int':
+            return ''
+        exprs.append('vp_in%d%s' % (k, path))
+    out = ''
+    for i, (e, ts) in enumerate(zip(exprs, job.shim_types)):
+        if ts in ('f32', 'f64'):
+            out += '#define VP_ARG%d (%s)\n' % (i, e)
+            continue
+        t = CT.ty(ts)
+        out += '#define VP_ARG%d ((__CPROVER_bitvector[140])(%s)(%s))\n' % (i, t.sctype, e)
+    return out
 
 
 def auto_harness(job, fi, tr):
@@ -652,6 +686,10 @@ def run_job(job, kern, wd):
     except ll2c.Unsupported as e:
         res.status = 'error'
         res.detail = 'll2c: %s' % e
+    except Exception as e:      # a bug in a spec generator must not take the whole run down
+        import traceback
+        res.status = 'error'
+        res.detail = 'internal: %s' % traceback.format_exc()[-800:]
     res.wall_s = time.time() - t0
     return res
 
